@@ -39,6 +39,18 @@ KIND = {"caltech": 0, "jpl": 1, "office001": 2}
 # the factories' `voltage` argument (voltage at the EVSEs) must not influence the transformer limits,
 # which are rated at the nominal 120 V line-to-neutral
 VOLTAGES = [200, 120, 240]
+# public names exported by acnportal.acnsim.network.sites: factory of each site and its aliases
+FACTORY = {"caltech": "caltech_acn", "jpl": "jpl_acn", "office001": "office001_acn"}
+ALIASES = {"caltech": ["CaltechACN"]}
+NOT_A_PREDEFINED_SITE = ["simple_acn"]      # generic single-phase builder, outside C16
+
+
+def unknown_constructors():
+    """public callables of the sites package that this dumper does not know (a new alias must be added here)"""
+    from acnportal.acnsim.network import sites
+    known = set(FACTORY.values()) | {a for v in ALIASES.values() for a in v} | set(NOT_A_PREDEFINED_SITE)
+    return sorted(n for n in dir(sites) if not n.startswith("_") and callable(getattr(sites, n))
+                  and not isinstance(getattr(sites, n), type) and n not in known)
 
 
 def variants(site):
@@ -49,6 +61,11 @@ def variants(site):
     for i, v in enumerate(VOLTAGES):
         out.append((False, dict(caps[i % 3], voltage=v)))
         out.append((True, dict(caps[(i + 1) % 3], voltage=v)))
+    # every public constructor alias of the site (documented backward-compatible names) builds the same
+    # site for the same arguments
+    for alias in ALIASES.get(site, []):
+        out.append((False, dict(caps[1], _alias=alias)))
+        out.append((True, dict(caps[2], _alias=alias, voltage=VOLTAGES[0])))
     return out
 
 
@@ -111,9 +128,13 @@ def transformer_truth(site, prefix, ids, kwargs):
 
 
 def build(site, basic, kwargs):
+    import warnings
     from acnportal.acnsim.network import sites
-    fn = {"caltech": sites.caltech_acn, "jpl": sites.jpl_acn, "office001": sites.office001_acn}[site]
-    return fn(basic_evse=basic, **kwargs)
+    kwargs = dict(kwargs)
+    fn = getattr(sites, kwargs.pop("_alias", None) or FACTORY[site])
+    with warnings.catch_warnings():
+        warnings.simplefilter("ignore")
+        return fn(basic_evse=basic, **kwargs)
 
 
 def classify(site, names, ids, kwargs):
@@ -174,7 +195,7 @@ def classify(site, names, ids, kwargs):
 
 def dump_one(site, basic, kwargs, idx):
     net = build(site, basic, kwargs)
-    kwargs = {k: v for k, v in kwargs.items() if k != "voltage"}
+    kwargs = {k: v for k, v in kwargs.items() if k not in ("voltage", "_alias")}
     ids = list(net.station_ids)
     A = net.constraint_matrix
     rows = [] if A is None else [[float(x) for x in r] for r in A]
@@ -258,6 +279,12 @@ def generate(repo):
     for site, ns in groups.items():
         out += "Definition sites_%s : list site := %s.\n" % (site, lst(ns))
     out += "Definition all_sites : list site := sites_caltech ++ sites_jpl ++ sites_office001.\n"
+    try:
+        unk = unknown_constructors()
+        out += ("(* public site constructors this dumper does not know (must be empty) *)\n"
+                "Definition unknown_site_constructors : nat := %d%s.\n" % (len(unk), "".join(" (* %s *)" % u for u in unk)))
+    except Exception as e:  # noqa
+        out += "Definition unknown_site_constructors : nat := listing_failed_%s.\n" % type(e).__name__
     try:
         ok = jpl_calls_use_default_secondary_voltage(repo)
         out += ("(* AST check of jpl_acn: every _delta_wye_transformer call passes (name, currents, cap) only *)\n"
